@@ -18,6 +18,9 @@ CHECKS = {
  'C17': dict(engine='gev-c17', technique='bounded-exhaustive enumeration of rule trees x option sets; expected normal / low-priority outputs built as model sheets and compared token by token',
    text='Every rule tree over 8 leaf kinds (ordinary rule, :host, @font-face block, :host(.a), :host .a, .a :host, :host,.b, :host:hover) and 3 rule-bearing wrappers up to depth 1 with lists of <= 2, deeper trees (depth 2 quick / 3 thorough) over 3 leaf kinds, and flat lists of <= 3 / 4 rules, under every option set {convert_host} x {class_prefix} x {host_is} x {sign}. The normal output must be the input minus moved / dropped rules in order; the low-priority output must be, per plain :host rule in order, the same wrapper chain around [wx-host="P"](,[is="H"]) with transformed declarations; one HostSelectorCombination warning per dropped rule; nothing moves with conversion off.',
    note='Trusted: cssparser tokenizer; the token-level reference rewrite shared with C08. `.a :host` (host not first) is modelled as an ordinary rule, as the anchored mechanism defines detection at the start of a rule.', ref='4/C17'),
+ 'C18': dict(engine='gev-c18', technique='bounded-exhaustive enumeration of import paths x spellings x condition combinations x positions; token-level expected output with an independent percent-decoder',
+   text='Every path over an 18-symbol alphabet (quotes, backslash, */ ingredients, %, hex digits, blank, newline, non-ASCII, astral, parentheses, semicolon) up to length 2 (quick) / 3 (thorough) in the four spellings "…", \'…\', url(…), url("…"), with every combination of layer() / supports() / 4 media conditions at 7 positions, with and without an import sign, with and without a following rule; longer paths (3 / 4) with a reduced condition set. With a sign: exactly one placeholder comment whose percent-decoding is the path, wrapped in @layer / @supports / @media blocks token-equal to the conditions, balanced, at the import position; imports after a rule or block are flagged, the first is not. Without a sign: token-equal pass-through.',
+   note='Trusted: cssparser tokenizer (denotation of a spelling; output tokens). Not asserted: the bare `layer` keyword, whether a second consecutive import is flagged, imports nested in blocks.', ref='4/C18'),
 }
 
 NOT_YET = {}
